@@ -18,7 +18,6 @@ import lib_arb2 as A
 import vlib
 
 SIG = A.SIG
-KEY_BOOT = "boot-failure-during-halt"
 KEY_RX = "reexec-fork-reap-race"
 KEY_GTQ = "quick-shutdown-gthread-joins-threads"
 
@@ -77,7 +76,11 @@ def judge(case, w):
         return fails            # no stop signal was dispatched in this run
     sig = init["sig"]
     graceful = sig == SIG["TERM"]
-    boot = [(p, s) for p, s in w.reaps if (s >> 8) in (3, 4)] + [(k["pid"], k["status"]) for k in w.kids if k["st"] == "Z" and (k["status"] >> 8) in (3, 4)]
+    # boot failures (exit codes 3 / 4) reaped through the worker branch of reap_workers; the FIRST reason decides the exit
+    # status: one reaped before the master entered stop() halts it with that code (C03), one reaped once the shutdown is under
+    # way is an ordinary death and the status stays 0
+    boot = [(p, s) for (p, s), rx in zip(w.reaps, w.reaps_ctx) if (s >> 8) in (3, 4) and rx != p]
+    first = [(p, s) for p, s in boot if w.stopping_at is None or w.reap_at.get(p, 0) <= w.stopping_at]
     t0 = init["wall"]
     G = init["grace"]
     nap = 26
@@ -87,12 +90,15 @@ def judge(case, w):
             sum(1 for l in w.resolved[w.stop_index:] if l[0] == "M"), sig), None))
         return fails
     if w.outcome[0] == "crash":
-        fails.append(("an exception escaped from Arbiter.run() during the shutdown: %s (exit status 1, pid file kept)" % (w.outcome[1],),
-                      KEY_BOOT if boot else None))
+        fails.append(("an exception escaped from Arbiter.run() during the shutdown: %s (exit status 1, pid file kept); boot failures reaped: %r"
+                      % (w.outcome[1], boot), None))
         return fails
     status = w.outcome[1]
-    if status != 0 and not boot:
-        fails.append(("master exited with status %r after signal %d" % (status, sig), None))
+    want_status = (first[0][1] >> 8) if first else 0
+    if status != want_status:
+        fails.append(("master exited with status %r after signal %d; expected %d (%s)" % (
+            status, sig, want_status, "the boot failure of worker %d was reaped before the master began to stop" % first[0][0] if first
+            else "no boot failure was reaped before the master began to stop" + ("; reaped while it was stopping: %r" % (boot,) if boot else "")), None))
     t1 = w.wall - L.WALL0
     bound = (G + nap) * (1 if graceful else 2) + ticks
     if t1 - t0 > bound:
@@ -144,7 +150,7 @@ def judge(case, w):
         if p not in first_sig:
             if not died_before:
                 fails.append(("worker %d was running and tracked when signal %d was dispatched but was never signalled" % (p, sig), None))
-        elif first_sig[p] != want and not boot:
+        elif first_sig[p] != want and not first:
             fails.append(("worker %d got signal %d first; a %s shutdown sends %d" % (p, first_sig[p], "graceful" if graceful else "quick", want), None))
     if case.get("prompt") and not fails:
         if t1 - t0 > nap + ticks:
@@ -191,11 +197,18 @@ def fixed_cases():
                           "script": [M] * boot_len(2) + [("S", SIG[sg])] + [M] * i + [("Xk", 0, 0), ("C",)]})
             cases.append({"cfg": base_cfg(2, 1, 1), "kind": "delivery-split",
                           "script": [M] * boot_len(2) + [("Xk", 1, 15), ("S", SIG[sg])] + [M] * i + [("C",)]})
-    # a worker that fails to boot while the master stops (known finding of C03, also visible here)
-    cases.append({"cfg": base_cfg(2, 1, 1), "kind": "boot-failure",
-                  "script": [M] * boot_len(2) + [("S", SIG["TERM"])] + [M] * 3 + [("Xk", 0, 768), ("C",)]})
-    cases.append({"cfg": base_cfg(2, 1, 1), "kind": "boot-failure",
-                  "script": [M] * boot_len(2) + [("S", SIG["INT"])] + [M] * 3 + [("Xk", 0, 1024), ("C",)]})
+    # a worker that fails to boot around the shutdown: before the dispatch its code is the exit status, once stop() has begun
+    # it is an ordinary death (status 0, pid file removed, no exception leaves run())
+    for sg in ("TERM", "INT", "QUIT"):
+        for code in (768, 1024):
+            for i in range(0, 12):
+                cases.append({"cfg": base_cfg(2, 1, 1), "kind": "boot-failure",
+                              "script": [M] * boot_len(2) + [("S", SIG[sg])] + [M] * i + [("Xk", 0, code), ("C",)]})
+        cases.append({"cfg": base_cfg(3, 1, 2), "kind": "boot-failure", "tail": "fair",
+                      "script": [M] * boot_len(3) + [("S", SIG[sg])] + [M] * 2 + [("Xk", 0, 768), ("Xk", 0, 1024), ("C",), M, ("Xk", 0, 768), ("C",)]})
+        # the boot failure comes first (not yet reaped / reaped) and the signal is queued behind it
+        cases.append({"cfg": base_cfg(2, 1, 1), "kind": "boot-failure-first",
+                      "script": [M] * boot_len(2) + [("Xk", 1, 1024), ("S", SIG[sg]), ("C",)] + [M] * 3 + [("Xk", 0, 768), ("C",)]})
     return cases
 
 
@@ -229,7 +242,7 @@ def gen_random(rng):
     for _ in range(rng.randint(0, 10)):
         y = rng.random()
         if y < 0.35:
-            script.append(("Xk", rng.randrange(5), rng.choice([0, 0, 9, 15, 256, 0xFF00] if rng.random() < 0.95 else [768, 1024])))
+            script.append(("Xk", rng.randrange(5), rng.choice([0, 0, 9, 15, 256, 0xFF00] if rng.random() < 0.85 else [768, 1024])))
             if rng.random() < 0.6:
                 script += [M] * rng.choice([0, 0, 1, 2])
                 script.append(("C",))
